@@ -474,6 +474,13 @@ func ruleCondCapacity(c *Ctx, r *R) {
 		}
 	}
 	r.ok(nb && sends == 1, "xsync.ContextCond.Signal|non-blocking", sig.Pos(), "Signal must be a single non-blocking send on c.ch (it may be called with c.L held and with no waiter present)")
+	// the send happens while c.m is held: Broadcast closes the channel under the write lock, so a send on a snapshot taken
+	// before releasing c.m can hit a closed channel (panic) or wake nobody
+	_, _, muF := condOwner(c)
+	for i, cs := range condSends(c, sig) {
+		held := deepLocks(sig, deepInstr{in: cs.op.in, site: cs.op.in, calls: cs.chain})
+		r.ok(held.heldSuffix(muF, false), "xsync.ContextCond.Signal|send-under-lock#"+itoa(i+1), posOf(cs.op.in), "Signal must send on the cond's channel while still holding c.m (read lock): once c.m is released a concurrent Broadcast may close that very channel, and the send panics")
+	}
 }
 
 func ruleSignalCapacity(c *Ctx, r *R) {
@@ -506,6 +513,7 @@ func ruleSignalCapacity(c *Ctx, r *R) {
 type condSend struct {
 	op       chanOp
 	blocking bool
+	chain    []*ssa.Call // call chain from the root function to the frame that holds the send
 }
 
 // condSends: the sends on the cond's channel performed by fn, by the in-package helpers it calls and by the function literals
@@ -547,7 +555,7 @@ func condSends(c *Ctx, fn *ssa.Function) []condSend {
 					}
 				}
 				if isCond && len(ls) > 0 {
-					out = append(out, condSend{op, op.blocking})
+					out = append(out, condSend{op, op.blocking, fr.chain})
 				}
 			}
 		}
